@@ -69,7 +69,7 @@ Qed.
 Lemma all_some_map_Some {A B} (f : B -> A) l : all_some (map (fun x => Some (f x)) l) = Some (map f l).
 Proof. induction l as [|x l IH]; cbn; [reflexivity|]. rewrite IH; reflexivity. Qed.
 
-Lemma map_as_iface l : map as_iface (map OIface l) = map (fun i => Some i) l.
+Lemma map_as_iface w l : map (as_arg w) (map OIface l) = map (fun i => Some i) l.
 Proof. induction l as [|x l IH]; cbn; [reflexivity|]. rewrite IH; reflexivity. Qed.
 
 Lemma map_as_int l : map as_int (map OInt l) = map (fun z => Some z) l.
@@ -153,6 +153,16 @@ Proof.
     rewrite forallb_forall in H. specialize (H _ (assoc_nat_In _ _ _ E)). cbn [snd] in H.
     destruct (lookup_global w g) as [x|]; cbn in H; [|discriminate]. apply obj_eqb_eq in H. congruence.
   - exists g_type, OType. repeat split.
+Qed.
+
+(* interface-only argument lists: arg_ref is the interface's name *)
+Lemma arg_refs_ifaces w is :
+  forallb (fun i => Nat.ltb i (List.length (w_ifaces w))) is = true ->
+  map (arg_ref w) is = map ByName (map (iname w) is).
+Proof.
+  induction is as [|i is IH]; cbn [map forallb]; [reflexivity|].
+  rewrite andb_true_iff. intros [Hi H]. rewrite IH by exact H.
+  unfold arg_ref at 1, nifaces. rewrite Hi. reflexivity.
 Qed.
 
 Lemma ids_ok_split w c is : ids_ok w c is = true ->
@@ -244,10 +254,28 @@ Proof.
   intros H. unfold decl_interfaces. f_equal. apply flat_map_ext. intros; apply sref_interfaces_ext; assumption.
 Qed.
 
+Lemma reaches_ext w a b : same_impl w a b ->
+  forall fuel d c, reaches fuel w b d c = reaches fuel w a d c.
+Proof.
+  intros H. induction fuel as [|f IH]; intros d c; cbn [reaches]; [reflexivity|].
+  rewrite (H d). f_equal. induction (im_bases (get_impl w a d)) as [|x l IHl]; cbn [existsb]; [reflexivity|].
+  rewrite IHl. destruct x; try reflexivity. rewrite IH. reflexivity.
+Qed.
+
+Lemma spec_isOrExtends_ext w a b fuel c x : same_impl w a b ->
+  spec_isOrExtends fuel w b c x = spec_isOrExtends fuel w a c x.
+Proof.
+  intros H. unfold spec_isOrExtends. rewrite (sref_implied_ext w a b H), (reaches_ext w a b H). reflexivity.
+Qed.
+
+Lemma filter_ext_all {A} (f g : A -> bool) l : (forall a, f a = g a) -> filter f l = filter g l.
+Proof. intros H. induction l as [|x l IH]; cbn; [reflexivity|]. rewrite H, IH. reflexivity. Qed.
+
 Lemma build_bases_ext w a b fuel c is : same_impl w a b ->
   build_bases fuel w b c is = build_bases fuel w a c is.
 Proof.
-  intros H. unfold build_bases, spec_isOrExtends. rewrite (sref_implied_ext w a b H). reflexivity.
+  intros H. unfold build_bases. f_equal. f_equal. apply filter_ext_all. intros x.
+  rewrite (spec_isOrExtends_ext w a b fuel c x H). reflexivity.
 Qed.
 
 (* ------------------------------------------------------------------ invariant 1: every class spec knows its class *)
@@ -561,14 +589,14 @@ Lemma rebuild_prov fuel w st pr :
 Proof.
   intros W I. destruct (ids_ok_split _ _ _ I) as [Hc Hi].
   unfold reduce_prov. rewrite rebuild_Call.
-  rewrite <- (map_map (iname w) ByName). change (ByName (cname w (pv_cls pr)) :: map ByName (map (iname w) (pv_ifaces pr)))
+  rewrite (arg_refs_ifaces w _ Hi). change (ByName (cname w (pv_cls pr)) :: map ByName (map (iname w) (pv_ifaces pr)))
     with (map ByName (cname w (pv_cls pr) :: map (iname w) (pv_ifaces pr))).
   rewrite rebuild_list_names. cbn [map]. rewrite wf_class by assumption. rewrite wf_ifaces by assumption.
   unfold apply_fn.
   replace (Some (OClass (pv_cls pr)) :: map (fun i => Some (OIface i)) (pv_ifaces pr))
     with (map (fun x : obj => Some x) (OClass (pv_cls pr) :: map OIface (pv_ifaces pr)))
     by (cbn [map]; rewrite map_map; reflexivity).
-  rewrite all_some_Some. rewrite map_as_iface, all_some_Some. reflexivity.
+  rewrite all_some_Some. rewrite (map_as_iface w), all_some_Some. reflexivity.
 Qed.
 
 (* a declaration that is still shared (the cache maps its arguments to it) unpickles to itself *)
@@ -789,13 +817,14 @@ Qed.
 
 (* ------------------------------------------------------------------ ClassProvides *)
 
-Definition cprov_inv (st : state) : Prop :=
-  forall q qr, nth_error (st_cprovs st) q = Some qr -> cp_bases qr = map RI (cp_ifaces qr) ++ [RType].
+Definition cprov_inv (w : world) (st : state) : Prop :=
+  forall q qr, nth_error (st_cprovs st) q = Some qr ->
+  cp_bases qr = cprov_bases (List.length (w_ifaces w)) (w_root w) (cp_ifaces qr).
 
-Lemma cprov_inv_fields a b : st_cprovs b = st_cprovs a -> cprov_inv a -> cprov_inv b.
+Lemma cprov_inv_fields w a b : st_cprovs b = st_cprovs a -> cprov_inv w a -> cprov_inv w b.
 Proof. unfold cprov_inv. intros E H. rewrite E. exact H. Qed.
 
-Lemma cprov_inv_alloc st c is : cprov_inv st -> cprov_inv (alloc_cprov st c is).
+Lemma cprov_inv_alloc w st c is : cprov_inv w st -> cprov_inv w (alloc_cprov w st c is).
 Proof.
   intros H q qr. cbn [alloc_cprov st_cprovs].
   destruct (Nat.lt_ge_cases q (List.length (st_cprovs st))) as [L|L].
@@ -804,21 +833,21 @@ Proof.
     intros E; inversion E; subst. reflexivity.
 Qed.
 
-Lemma implementedBy_cprov_inv fuel w : forall st c, cprov_inv st -> cprov_inv (implementedBy fuel w st c).
+Lemma implementedBy_cprov_inv fuel w : forall st c, cprov_inv w st -> cprov_inv w (implementedBy fuel w st c).
 Proof.
   induction fuel as [|f IH]; intros st c H; cbn [implementedBy];
     destruct (assoc_nat c (st_impl st)); try assumption.
   set (st1 := fold_left (implementedBy f w) (cbases w c) st).
-  assert (F1 : cprov_inv st1).
+  assert (F1 : cprov_inv w st1).
   { unfold st1. clear st1. generalize (cbases w c). intros l. revert st H.
     induction l as [|x l IHl]; intros st H; cbn [fold_left]; [assumption|]. apply IHl. apply IH; assumption. }
-  assert (F2 : cprov_inv (set_impl st1 c (default_impl w c))) by (eapply cprov_inv_fields; [|exact F1]; reflexivity).
+  assert (F2 : cprov_inv w (set_impl st1 c (default_impl w c))) by (eapply cprov_inv_fields; [|exact F1]; reflexivity).
   destruct (is_builtin w c); [exact F2|].
   destruct (assoc_nat c (st_cprov_of (set_impl st1 c (default_impl w c)))); [exact F2|].
-  eapply cprov_inv_fields; [|apply (cprov_inv_alloc _ c [] F2)]. reflexivity.
+  eapply cprov_inv_fields; [|apply (cprov_inv_alloc w _ c [] F2)]. reflexivity.
 Qed.
 
-Lemma directly_provides_cprov_inv fuel w st o is : cprov_inv st -> cprov_inv (directly_provides fuel w st o is).
+Lemma directly_provides_cprov_inv fuel w st o is : cprov_inv w st -> cprov_inv w (directly_provides fuel w st o is).
 Proof.
   intros H. unfold directly_provides. destruct (nth_error (st_insts st) o) as [io|]; [|assumption].
   unfold provides_factory. destruct (assoc_key (in_cls io, is) (st_cache st)).
@@ -826,7 +855,7 @@ Proof.
   - eapply cprov_inv_fields; [|apply (implementedBy_cprov_inv fuel w st (in_cls io) H)]. reflexivity.
 Qed.
 
-Lemma step_cprov_inv fuel w st x : cprov_inv st -> cprov_inv (step fuel w st x).
+Lemma step_cprov_inv fuel w st x : cprov_inv w st -> cprov_inv w (step fuel w st x).
 Proof.
   intros H. destruct x; cbn [step].
   - apply implementedBy_cprov_inv; assumption.
@@ -834,12 +863,12 @@ Proof.
   - eapply cprov_inv_fields; [|apply (implementedBy_cprov_inv fuel w st c H)]. reflexivity.
   - eapply cprov_inv_fields; [|apply (implementedBy_cprov_inv fuel w st c H)]. reflexivity.
   - unfold class_provides. eapply cprov_inv_fields;
-      [|apply (cprov_inv_alloc _ c is (implementedBy_cprov_inv fuel w st c H))]. reflexivity.
+      [|apply (cprov_inv_alloc w _ c is (implementedBy_cprov_inv fuel w st c H))]. reflexivity.
   - unfold class_also_provides, class_provides. eapply cprov_inv_fields;
-      [|apply (cprov_inv_alloc _ c (class_provided_by fuel w st c ++ is) (implementedBy_cprov_inv fuel w st c H))].
+      [|apply (cprov_inv_alloc w _ c (class_provided_by fuel w st c ++ is) (implementedBy_cprov_inv fuel w st c H))].
     reflexivity.
   - unfold class_no_longer_provides, class_provides. eapply cprov_inv_fields;
-      [|apply (cprov_inv_alloc _ c (minus fuel w (class_provided_by fuel w st c) i)
+      [|apply (cprov_inv_alloc w _ c (minus fuel w (class_provided_by fuel w st c) i)
                  (implementedBy_cprov_inv fuel w st c H))].
     reflexivity.
   - apply directly_provides_cprov_inv; assumption.
@@ -848,9 +877,9 @@ Proof.
   - eapply cprov_inv_fields; [|exact H]. reflexivity.
 Qed.
 
-Lemma run_cprov_inv fuel w ops : cprov_inv (run fuel w ops).
+Lemma run_cprov_inv fuel w ops : cprov_inv w (run fuel w ops).
 Proof.
-  unfold run. assert (H : cprov_inv (init_state w)) by (intros [|q] qr; cbn; discriminate).
+  unfold run. assert (H : cprov_inv w (init_state w)) by (intros [|q] qr; cbn; discriminate).
   revert H. generalize (init_state w). induction ops as [|x ops IH]; intros st H; cbn [fold_left]; [assumption|].
   apply IH. apply step_cprov_inv; assumption.
 Qed.
@@ -858,7 +887,7 @@ Qed.
 Lemma rebuild_cprov fuel w st qr :
   wf_globals w = true -> ids_ok w (cp_cls qr) (cp_ifaces qr) = true ->
   rebuild fuel w st (reduce_cprov w qr) =
-  (alloc_cprov (implementedBy fuel w st (cp_cls qr)) (cp_cls qr) (cp_ifaces qr),
+  (alloc_cprov w (implementedBy fuel w st (cp_cls qr)) (cp_cls qr) (cp_ifaces qr),
    Some (OCProv (List.length (st_cprovs (implementedBy fuel w st (cp_cls qr)))))).
 Proof.
   intros W I. destruct (ids_ok_split _ _ _ I) as [Hc Hi].
@@ -867,7 +896,7 @@ Proof.
   replace (match assoc_nat (cp_cls qr) (w_meta w) with Some g0 => ByName g0 | None => ByName g_type end)
     with (ByName g) by (unfold meta_ref, type_ref in Eg; symmetry; exact Eg).
   rewrite rebuild_Call.
-  rewrite <- (map_map (iname w) ByName).
+  rewrite (arg_refs_ifaces w _ Hi).
   change (ByName (cname w (cp_cls qr)) :: ByName g :: map ByName (map (iname w) (cp_ifaces qr)))
     with (map ByName (cname w (cp_cls qr) :: g :: map (iname w) (cp_ifaces qr))).
   rewrite rebuild_list_names. cbn [map]. rewrite wf_class by assumption. rewrite wf_ifaces by assumption.
@@ -875,7 +904,7 @@ Proof.
   replace (Some (OClass (cp_cls qr)) :: Some m :: map (fun i => Some (OIface i)) (cp_ifaces qr))
     with (map (fun x : obj => Some x) (OClass (cp_cls qr) :: m :: map OIface (cp_ifaces qr)))
     by (cbn [map]; rewrite map_map; reflexivity).
-  rewrite all_some_Some. rewrite Mm. rewrite map_as_iface, all_some_Some. reflexivity.
+  rewrite all_some_Some. rewrite Mm. rewrite (map_as_iface w), all_some_Some. reflexivity.
 Qed.
 
 Lemma classprovides_roundtrip fuel w ops q qr :
@@ -891,11 +920,12 @@ Proof.
   intros W N I. set (st := run fuel w ops) in *.
   rewrite rebuild_cprov by assumption.
   set (st1 := implementedBy fuel w st (cp_cls qr)).
-  exists (alloc_cprov st1 (cp_cls qr) (cp_ifaces qr)), (List.length (st_cprovs st1)),
-         (mkCProv (cp_cls qr) (cp_ifaces qr) (map RI (cp_ifaces qr) ++ [RType])).
-  assert (B : cp_bases qr = map RI (cp_ifaces qr) ++ [RType]) by (apply (run_cprov_inv fuel w ops q qr N)).
-  assert (Nn : nth_error (st_cprovs (alloc_cprov st1 (cp_cls qr) (cp_ifaces qr))) (List.length (st_cprovs st1))
-               = Some (mkCProv (cp_cls qr) (cp_ifaces qr) (map RI (cp_ifaces qr) ++ [RType]))).
+  set (bs := cprov_bases (List.length (w_ifaces w)) (w_root w) (cp_ifaces qr)).
+  exists (alloc_cprov w st1 (cp_cls qr) (cp_ifaces qr)), (List.length (st_cprovs st1)),
+         (mkCProv (cp_cls qr) (cp_ifaces qr) bs).
+  assert (B : cp_bases qr = bs) by (apply (run_cprov_inv fuel w ops q qr N)).
+  assert (Nn : nth_error (st_cprovs (alloc_cprov w st1 (cp_cls qr) (cp_ifaces qr))) (List.length (st_cprovs st1))
+               = Some (mkCProv (cp_cls qr) (cp_ifaces qr) bs)).
   { cbn [alloc_cprov st_cprovs]. rewrite nth_error_app2 by lia. rewrite Nat.sub_diag. reflexivity. }
   repeat split; auto.
   cbn [obj_interfaces]. rewrite Nn, N. cbn [cp_bases]. rewrite B. apply decl_interfaces_ext.
@@ -1049,11 +1079,30 @@ Proof.
   - destruct f; reflexivity.
 Qed.
 
+Lemma existsb_ext_in {A} (f g : A -> bool) l : (forall a, In a l -> f a = g a) -> existsb f l = existsb g l.
+Proof.
+  induction l as [|x l IH]; intros H; cbn [existsb]; [reflexivity|].
+  rewrite (H x) by (left; reflexivity). rewrite IH; [reflexivity|]. intros; apply H; right; assumption.
+Qed.
+
+(* ... and reaches the same classes *)
+Lemma reaches_frame w st c r : forall fuel d x,
+  reaches fuel w (set_impl st c r) d c = false ->
+  reaches fuel w (set_impl st c r) d x = reaches fuel w st d x.
+Proof.
+  induction fuel as [|f IH]; intros d x H; [reflexivity|].
+  cbn [reaches] in *. apply orb_false_iff in H. destruct H as [H1 H2].
+  apply Nat.eqb_neq in H1. rewrite (get_impl_set_other w st c r d H1) in *.
+  f_equal. apply existsb_ext_in. intros y I. destruct y as [i|b|]; try reflexivity.
+  apply IH. apply (existsb_false _ _ H2 (RC b) I).
+Qed.
+
 Lemma build_bases_frame fuel w st c r d is :
   reaches fuel w (set_impl st c r) d c = false ->
   build_bases fuel w (set_impl st c r) d is = build_bases fuel w st d is.
 Proof.
-  intros H. unfold build_bases, spec_isOrExtends. rewrite (implied_frame w st c r fuel d H). reflexivity.
+  intros H. unfold build_bases. f_equal. f_equal. apply filter_ext_all. intros x.
+  unfold spec_isOrExtends. rewrite (implied_frame w st c r fuel d H), (reaches_frame w st c r fuel d _ H). reflexivity.
 Qed.
 
 (* replace the spec of c and notify: what stays in the cache is still current *)
@@ -1064,7 +1113,8 @@ Proof.
   intros H x I. apply filter_In in I. destruct I as [I R]. specialize (H x I).
   destruct (nth_error (st_provs st) (snd x)) as [pr|]; [|discriminate].
   apply andb_true_iff in H. destruct H as [H1 H2]. rewrite H1. cbn [andb].
-  apply ckey_eqb_eq in H1. apply negb_true_iff in R. rewrite H1 in R. cbn [fst] in R.
+  apply ckey_eqb_eq in H1. apply negb_true_iff in R. rewrite H1 in R. unfold prov_depends in R.
+  apply orb_false_iff in R. destruct R as [R _]. cbn [fst] in R.
   apply prov_current_eq. apply prov_current_eq in H2. rewrite H2.
   rewrite (build_bases_ext w (set_impl st c r) (notify fuel w (set_impl st c r) c))
     by (apply same_impl_fields; reflexivity).
